@@ -1,17 +1,13 @@
 (* C13 — property theorems (statements only; the proofs live in the Acme.C13.Proofs... files). *)
 From Coq Require Import ZArith List Bool.
 From Acme.C12 Require Import Proto NetModel Load.
-From Acme.C13 Require Import ProofsWf Proofs.
+From Acme.C12 Require Import Received.
+From Acme.C13 Require Import ProofsWf Proofs ProofsAlloc.
 Import ListNotations.
 Open Scope Z_scope.
 
-(* definitional: the loader model is a total Gallina function (every protobuf tree is mapped to an error
-   or to a network).  It carries no information about the Go code: absence of Go panics, hangs and
-   fatal errors is established by the guarded exploration of ./check C13, not by this statement. *)
-Theorem load_total : forall (now : time) (p : PNet),
-  (exists c, load now p = Err c) \/ (exists n, load now p = Ok n).
-Proof. exact load_total_lemma. Qed.
-Print Assumptions load_total.
+(* (`load_total`, the totality of the Gallina function `load`, is definitional and carries no information about
+   the Go code; it is kept as a remark, `Acme.C13.Proofs.load_total_lemma`, and is not a property theorem.) *)
 
 (* a successful load only yields well-formed networks, for EVERY tree p whose size_byte fields
    are non-negative (uint32 in the .proto): unique names and entity ids, references resolve,
@@ -21,3 +17,29 @@ Theorem load_ok_wf : forall (now : time) (p : PNet) (n : net),
   pnet_u32_ok p -> load now p = Ok n -> wfb n = true.
 Proof. exact load_ok_wf_lemma. Qed.
 Print Assumptions load_ok_wf.
+
+(* What the loader allocates from.  For every network the loader model returns: message size <= 8 bytes, the group
+   count of every multiplexer (at any depth) = the number of group lists present, every group size between 1 and the
+   bits of the enclosing layout (<= 64).  These are the size / count fields the Go loader validates before it
+   allocates (fixes 86ac827, b0301f8). *)
+Theorem alloc_bound : forall (now : time) (p : PNet) (n : net),
+  pnet_u32_ok p -> load now p = Ok n -> net_alloc_okb n = true.
+Proof. exact alloc_bound_lemma. Qed.
+Print Assumptions alloc_bound.
+
+(* ... and the one it does not validate: inputs of one fixed shape load with ANY interface count, so the eager
+   allocation of the node's interfaces is bounded by no function of the input size.  The termination / resource
+   clause of C13 is REFUTED for this field (open finding c13-fatal@newNodeFromEntity:out-of-memory+interface_count). *)
+Theorem interface_count_unbounded : forall (now : time) (k : Z),
+  exists n nd, load now (ifcount_input k) = Ok n /\ n_nodes n = [nd] /\ nd_ifcount nd = k.
+Proof. exact interface_count_unbounded_lemma. Qed.
+Print Assumptions interface_count_unbounded.
+
+(* Open finding D22 on the model side: a save that lists two interfaces of one node as receivers loads into a
+   well-formed network (`wfb` has no received-messages relation) in which the converse of the receiver relation is
+   broken: the first interface was registered as receiving the message (`received_rel`), the message lists only the
+   second.  (c13-inv:c05-received-but-replaced-by-second-interface-of-same-node) *)
+Theorem d22_load_refuted :
+  exists n, load (0, 0) d22_input = Ok n /\ wfb n = true /\ ~ recv_link_ok n (received_rel d22_input).
+Proof. exact d22_load_refuted_lemma. Qed.
+Print Assumptions d22_load_refuted.
